@@ -1,13 +1,25 @@
 (** C09 — Keys sort by the documented per-field orders, totally and reproducibly.
-    Statements only; proofs are in Proofs/Sort.v and Proofs/Reach.v. Model:
-    Model/Sort.v on top of the projection model of C08. Library behaviour:
-    strconv.ParseFloat and math.Pow are the Section variables [parse_float],
-    [pow] (replayed from tables when the model is evaluated); the regexp of
-    parseNum is modelled ([num_match]); sort.Slice is "returns a sorted
-    permutation". *)
+    Statements only; proofs are in Proofs/Sort.v, Proofs/SortR.v, Proofs/Reach.v,
+    Proofs/FirstObs.v, Proofs/NumSpec.v.
+
+    Model: Model/SortR.v - benchproc/sort.go and the order maps of
+    projection.go WITH the two repairs proposed for this property
+    (hooks/fix_c09_num_leading_sign.diff: a leading sign belongs to the numeral
+    of a suffixed number, "-1k" is -1000 and not +1000;
+    hooks/fix_c09_config_subfield_missing_first.diff: the order map of a .config
+    sub-field created when Keys already exist starts at {"": 0}) - on top of the
+    projection model of C08. What the code does WITHOUT the repairs is kept as
+    the two [_refuted] statements at the end (Model/Sort.v, the shared model of
+    the code as it was).
+
+    Library behaviour: strconv.ParseFloat and math.Pow are the Section variables
+    [parse_float], [pow] (replayed from tables when the model is evaluated); the
+    regexp of parseNum is modelled ([num_match_r]); sort.Slice is "returns a
+    sorted permutation". *)
 From Coq Require Import Permutation Sorting.Sorted.
 From Perf Require Import Base.Bytes Base.B64 Model.Name Model.Extract Model.Key Model.Projection
-  Model.Sort Proofs.Key Proofs.Projection Proofs.Sort Proofs.Reach Proofs.NumSpec Proofs.FirstObs.
+  Model.Sort Model.SortR Proofs.Key Proofs.Projection Proofs.Sort Proofs.Reach Proofs.NumSpec
+  Proofs.FirstObs Proofs.SortR.
 
 Section C09.
 Variable parse_float : bytes -> option b64.
@@ -20,12 +32,12 @@ Variable pow : bool -> nat -> b64.
     computation (Proofs/Sort.b64_lt_nan_l/r). Nothing is assumed about WHICH
     numbers ParseFloat and Pow return. RunC09.float_order_ok re-checks these
     three facts on the values of every generated case. *)
-Hypothesis lt_irrefl : forall x, numval parse_float pow x -> b64_lt x x = false.
+Hypothesis lt_irrefl : forall x, numval_r parse_float pow x -> b64_lt x x = false.
 Hypothesis lt_trans : forall x y z,
-  numval parse_float pow x -> numval parse_float pow y -> numval parse_float pow z ->
+  numval_r parse_float pow x -> numval_r parse_float pow y -> numval_r parse_float pow z ->
   b64_lt x y = true -> b64_lt y z = true -> b64_lt x z = true.
 Hypothesis incomp_trans : forall x y z,
-  numval parse_float pow x -> numval parse_float pow y -> numval parse_float pow z ->
+  numval_r parse_float pow x -> numval_r parse_float pow y -> numval_r parse_float pow z ->
   b64_is_nan x = false -> b64_is_nan y = false -> b64_is_nan z = false ->
   b64_lt x y = false -> b64_lt y x = false -> b64_lt y z = false -> b64_lt z y = false ->
   b64_lt x z = false /\ b64_lt z x = false.
@@ -34,10 +46,10 @@ Hypothesis incomp_trans : forall x y z,
     map, alpha, num, fixed with any list), "a before b" := cmp < 0, or cmp = 0
     and a bytewise before b, is a strict total order on all strings *)
 Theorem C09_field_rel_total : forall o obs,
-  let R := prec (ord_cmp parse_float pow o obs) in
+  let R := prec (ord_cmp_r parse_float pow o obs) in
   (forall a, ~ R a a) /\ (forall a b c, R a b -> R b c -> R a c) /\
   (forall a b, a <> b -> R a b \/ R b a).
-Proof. exact (field_rel_total parse_float pow lt_irrefl lt_trans incomp_trans). Qed.
+Proof. exact (field_rel_total_r parse_float pow lt_irrefl lt_trans incomp_trans). Qed.
 
 (** that relation is what [less] evaluates on one field *)
 Theorem C09_val_less_is_prec : forall cmp a b, val_less cmp a b = true <-> prec cmp a b.
@@ -47,16 +59,13 @@ Proof. exact val_less_prec. Qed.
     projection is irreflexive, transitive, asymmetric, and total on distinct Keys *)
 Theorem C09_less_strict_total : forall ops w xs p,
   run_ops new_world ops = (w, xs) -> In p (w_projs w) ->
-  let L := key_less parse_float pow p in
+  let L := key_less_r parse_float pow p in
   let n := length (p_keys p) in
   (forall k, L k k = false) /\
   (forall k1 k2 k3, L k1 k2 = true -> L k2 k3 = true -> L k1 k3 = true) /\
   (forall k1 k2, L k1 k2 = true -> L k2 k1 = false) /\
   (forall k1 k2, k1 < n -> k2 < n -> k1 <> k2 -> L k1 k2 = true \/ L k2 k1 = true).
-Proof.
-  intros ops w xs p H Hp. destruct (reachable_inv ops w xs p H Hp) as [K C].
-  exact (less_strict_total parse_float pow lt_irrefl lt_trans incomp_trans p K C).
-Qed.
+Proof. exact (less_strict_total_reach_r parse_float pow lt_irrefl lt_trans incomp_trans). Qed.
 
 (** sorted_perm_unique: under a strict total order, two sorted arrangements of the
     same distinct keys are the same list ... *)
@@ -73,41 +82,56 @@ Theorem C09_sortkeys_arrangement_independent : forall ops w xs p,
   run_ops new_world ops = (w, xs) -> In p (w_projs w) ->
   forall sort_slice : list nat -> list nat,
   (forall l, Permutation (sort_slice l) l) ->
-  (forall l, sorted (key_less parse_float pow p) (sort_slice l)) ->
+  (forall l, sorted (key_less_r parse_float pow p) (sort_slice l)) ->
   forall l1 l2, NoDup l1 -> Forall (fun k => k < length (p_keys p)) l1 -> Permutation l1 l2 ->
     sort_slice l1 = sort_slice l2.
-Proof.
-  intros ops w xs p H Hp ss Hperm Hsorted l1 l2.
-  destruct (C09_less_strict_total ops w xs p H Hp) as [_ [_ [_ Htot]]].
-  exact (sort_keys_arrangement_independent (key_less parse_float pow p)
-           (fun k => k < length (p_keys p)) Htot ss Hperm Hsorted l1 l2).
-Qed.
+Proof. exact (sortkeys_arrangement_independent_r parse_float pow lt_irrefl lt_trans incomp_trans). Qed.
+
+(** the comparison Key.Less applies to a field ordered "first" is the rank
+    difference in the repaired order map [first_vals] *)
+Theorem C09_first_field_cmp : forall p idx f,
+  nth_error (p_fields p) idx = Some f -> fi_ord f = OFirst -> idx < nfields p ->
+  field_cmp_r parse_float pow (p_fields p) (obs_table p) idx = cmp_first (first_vals p idx).
+Proof. exact (key_less_r_first_field parse_float pow). Qed.
 
 End C09.
 
-(** first_is_first_observation: after ANY stream of calls, for every field ordered
-    "first" of every projection — a top-level field, .unit, or a sub-field of
-    .config — and any two values a, b carried by Keys: a sorts before b in that
-    field iff the first Key carrying a was interned before the first Key carrying
-    b ([first_key]: position, in interning order, among ALL Keys of the
-    projection). For a sub-field of .config, which comes into existence when its
-    file key is first seen, the missing value "" of Keys is not an observation, so
-    there the statement is about non-empty values. (An unobserved "" reads rank 0
-    from Go's map and ties with the first observed value; [less] then falls back
-    to string order — C09_field_rel_total covers that case.) *)
-Theorem C09_first_is_first_observation : forall ops w xs p idx f,
-  run_ops new_world ops = (w, xs) -> In p (w_projs w) ->
-  nth_error (p_fields p) idx = Some f -> fi_ord f = OFirst ->
-  forall a b ia ib,
-    first_key p idx a = Some ia -> first_key p idx b = Some ib ->
-    (fi_src f = SCfg -> a <> [] /\ b <> []) ->
-    (Z.lt (cmp_first (fi_obs f) a b) 0 <-> ia < ib).
-Proof. exact first_is_first_observation. Qed.
+(** first_is_first_observation: for every field of every projection - a top-level
+    field, .unit, or a sub-field of .config that came into existence late - and
+    ANY two values a, b carried by Keys, the missing value "" of a Key that
+    lacks the field included: a sorts before b in that field iff the first Key
+    carrying a was interned before the first Key carrying b ([first_key]:
+    position, in interning order, among ALL Keys of the projection). No
+    hypothesis on the values (the earlier statement excluded "" for sub-fields
+    of .config: that was the defect, see C09_first_missing_refuted). *)
+Theorem C09_first_is_first_observation : forall p idx a b ia ib,
+  first_key p idx a = Some ia -> first_key p idx b = Some ib ->
+  (Z.lt (cmp_first (first_vals p idx) a b) 0 <-> ia < ib).
+Proof. exact first_is_first_observation_r. Qed.
 
-(** the steps behind it: flattened fields cover the index space; interning a new
-    row shows its value to the order map of EVERY field (the repaired loop of
-    internRow), an old row changes nothing; ranks never change and a new value
-    gets the next rank *)
+(** order_map_closed_form: how the repaired order map [first_vals] relates to
+    the order map [fi_obs] of the step-by-step model of the code as it was
+    (Model/Projection.v: internRow registers the values of each new Key with the
+    order map of every flattened field; a sub-field of .config created late
+    starts with the empty map). After ANY stream of calls, for every field with
+    an order map: [c] Keys existed when the field was created (c = 0 unless it
+    is a sub-field of .config), they all lack the field, the old map is the
+    registrations of the later Keys started from the empty map, and the
+    repaired map is THE SAME registrations started from {"": 0} when c > 0 -
+    which is literally what the repair adds to makeProjection. For c = 0 the
+    two maps are equal. *)
+Theorem C09_order_map_closed_form : forall ops w xs p idx f,
+  run_ops new_world ops = (w, xs) -> In p (w_projs w) ->
+  nth_error (p_fields p) idx = Some f -> tracks (fi_ord f) = true ->
+  exists c, c <= length (p_keys p) /\ (fi_src f <> SCfg -> c = 0) /\
+    (forall j, j < c -> vals_get (nth j (p_keys p) []) idx = []) /\
+    fi_obs f = register [] (column p idx c) /\
+    first_vals p idx = register (if c =? 0 then [] else [[]]) (column p idx c).
+Proof. exact order_map_closed_form. Qed.
+
+(** the steps behind the old map: flattened fields cover the index space;
+    interning a new row shows its value to the order map of EVERY field, an old
+    row changes nothing; ranks never change and a new value gets the next rank *)
 Theorem C09_observation_steps :
   (forall ops w xs p, run_ops new_world ops = (w, xs) -> In p (w_projs w) -> KInv p /\ covers p) /\
   (forall p, covers p ->
@@ -124,20 +148,32 @@ Theorem C09_observation_steps :
      mem v obs' = true /\
      (mem v obs = false ->
         obs_rank obs' v = length obs /\ forall a, mem a obs = true -> obs_rank obs a < length obs)).
-Proof.
-  split; [exact reachable_inv|]. split; [exact intern_observes|exact observe_ranks].
-Qed.
+Proof. exact (conj reachable_inv (conj intern_observes observe_ranks)). Qed.
 
-(** num_spec. The specification ([num_denote], [num_order], [num_before] in
-    Model/Sort.v) says: a string denotes the float ParseFloat reads from it, or
-    else v x RN(1000^e) / v x RN(1024^e) for the leftmost maximal run of [0-9.]
-    (ParseFloat's value v of that run) followed by one of k K M G T P E Z Y
-    (e = 1 1 2 3 4 5 6 7 8), with 'i' selecting 1024; the powers are the EXACT
-    integers rounded once to binary64 (exact for all but 1000^8) and the product is
-    one IEEE multiplication; numbers sort before non-numbers, NaN after all other
-    numbers, otherwise by < on the values, ties by string order.
+(** num_spec. The specification ([numeral_of], [num_denote_r], [num_before_r] in
+    Model/SortR.v; [num_order], [suffix_multiplier] in Model/Sort.v) says: a
+    string denotes the float ParseFloat reads from it, or else v x RN(1000^e) /
+    v x RN(1024^e) where v is ParseFloat's value of the string's numeral - a
+    leading sign directly followed by the maximal run of [0-9.], or else the
+    leftmost maximal run of [0-9.] - and the numeral is followed by one of
+    k K M G T P E Z Y (e = 1 1 2 3 4 5 6 7 8), with 'i' selecting 1024; the powers
+    are the EXACT integers rounded once to binary64 (exact for all but 1000^8) and
+    the product is one IEEE multiplication; numbers sort before non-numbers, NaN
+    after all other numbers, otherwise by < on the values, ties by string order.
     The only fact used about math.Pow is that it returns those rounded powers for
     the exponents 0..8 ([pow_rounded]; checked on every case's recorded table). *)
+Theorem C09_numeral_signed : forall s run rest,
+  is_sign s = true -> run <> [] -> forallb is_numch run = true ->
+  match rest with c :: _ => is_numch c = false | [] => True end ->
+  numeral_of (s :: run ++ rest) = (s :: run, rest).
+Proof. exact numeral_signed. Qed.
+
+Theorem C09_numeral_unsigned : forall run rest,
+  run <> [] -> forallb is_numch run = true ->
+  match rest with c :: _ => is_numch c = false | [] => True end ->
+  numeral_of (run ++ rest) = (run, rest).
+Proof. exact numeral_unsigned. Qed.
+
 Theorem C09_leftmost_run_spec : forall x,
   let s := drop_while (fun c => negb (is_numch c)) x in
   let pre := take_while (fun c => negb (is_numch c)) x in
@@ -153,19 +189,20 @@ Proof. exact leftmost_run_spec. Qed.
 Theorem C09_num_spec : forall (parse_float : bytes -> option b64) (pow : bool -> nat -> b64),
   (forall (iec : bool) (e : nat), e <= 8 ->
      pow iec e = b64_of_Z ((if iec then 1024 else 1000) ^ Z.of_nat e)%Z) ->
-  forall x, parse_num parse_float pow x = num_denote parse_float x.
-Proof. exact num_spec. Qed.
+  forall x, parse_num_r parse_float pow x = num_denote_r parse_float x.
+Proof. exact num_spec_r. Qed.
 
 (** ... and what [less] decides on a num field is exactly the specified order *)
 Theorem C09_num_order_spec : forall (parse_float : bytes -> option b64) (pow : bool -> nat -> b64),
   (forall (iec : bool) (e : nat), e <= 8 ->
      pow iec e = b64_of_Z ((if iec then 1024 else 1000) ^ Z.of_nat e)%Z) ->
-  forall a b, val_less (cmp_num parse_float pow) a b = num_before parse_float a b.
-Proof. exact val_less_num. Qed.
+  forall a b, val_less (cmp_num_r parse_float pow) a b = num_before_r parse_float a b.
+Proof. exact val_less_num_r. Qed.
 
 (** fixed_spec: a listed word ranks at the LAST position where it is listed, an
     unlisted word at 0; in a list without repetitions listed words compare by
-    their positions *)
+    their positions; and in any list, when every listing of a precedes every
+    listing of b, a sorts before b ("the listed order") *)
 Theorem C09_fixed_spec : forall l v,
   (In v l -> last_listed_at l v (fixed_rank l v)) /\ (~ In v l -> fixed_rank l v = 0).
 Proof. exact fixed_spec. Qed.
@@ -175,28 +212,38 @@ Theorem C09_fixed_spec_nodup : forall l i j a b,
   cmp_fixed l a b = (Z.of_nat i - Z.of_nat j)%Z.
 Proof. exact fixed_spec_nodup. Qed.
 
+Theorem C09_fixed_listed_before : forall l a b,
+  listed_before l a b = true -> (cmp_fixed l a b < 0)%Z.
+Proof. exact fixed_listed_before. Qed.
+
 Print Assumptions C09_field_rel_total.
 Print Assumptions C09_val_less_is_prec.
 Print Assumptions C09_less_strict_total.
 Print Assumptions C09_sorted_perm_unique.
 Print Assumptions C09_sortkeys_arrangement_independent.
+Print Assumptions C09_first_field_cmp.
 Print Assumptions C09_first_is_first_observation.
+Print Assumptions C09_order_map_closed_form.
 Print Assumptions C09_observation_steps.
+Print Assumptions C09_numeral_signed.
+Print Assumptions C09_numeral_unsigned.
 Print Assumptions C09_leftmost_run_spec.
 Print Assumptions C09_num_spec.
 Print Assumptions C09_num_order_spec.
 Print Assumptions C09_fixed_spec.
 Print Assumptions C09_fixed_spec_nodup.
+Print Assumptions C09_fixed_listed_before.
 
 (** non-vacuity. The hypotheses hold for a concrete oracle: ParseFloat knowing
-    "1", "1.0", "2", "NaN" (and rejecting everything else), exact powers; every
-    value parseNum can then return is one of 1, 2, NaN times a power, and the
-    three order facts are checked on a sample of them by computation. And the
-    headline cases: 1 and 1.0 tie numerically and fall back to string order; NaN
-    sorts after numbers; words after NaN. *)
+    "1", "1.0", "2", "-1", "-2", "NaN" (and rejecting everything else), exact
+    powers; and the headline cases: 1 and 1.0 tie numerically and fall back to
+    string order; NaN sorts after numbers; words after NaN; -2k < -1500 is not
+    listed here because -1500 is not in this toy ParseFloat, but -2k < -1k < -1 < 2 < 1k. *)
 Definition ex_pf (x : bytes) : option b64 :=
   if beq x (bs "1") || beq x (bs "1.0") then Some (b64_of_Z 1)
   else if beq x (bs "2") then Some (b64_of_Z 2)
+  else if beq x (bs "-1") then Some (b64_of_Z (-1))
+  else if beq x (bs "-2") then Some (b64_of_Z (-2))
   else if beq x (bs "NaN") then Some S754_nan else None.
 Definition ex_pow (iec : bool) (e : nat) : b64 := b64_of_Z ((if iec then 1024 else 1000) ^ Z.of_nat e).
 
@@ -205,20 +252,66 @@ Example C09_pow_rounded_example : forall (iec : bool) (e : nat), e <= 8 ->
 Proof. reflexivity. Qed.
 
 Example C09_example :
-  val_less (cmp_num ex_pf ex_pow) (bs "1") (bs "1.0") = true /\
-  val_less (cmp_num ex_pf ex_pow) (bs "1.0") (bs "1") = false /\
-  val_less (cmp_num ex_pf ex_pow) (bs "1.0") (bs "2") = true /\
-  val_less (cmp_num ex_pf ex_pow) (bs "1k") (bs "2") = false /\
-  val_less (cmp_num ex_pf ex_pow) (bs "2") (bs "NaN") = true /\
-  val_less (cmp_num ex_pf ex_pow) (bs "NaN") (bs "foo") = true /\
-  val_less (cmp_num ex_pf ex_pow) (bs "bar") (bs "foo") = true /\
-  parse_num ex_pf ex_pow (bs "x1Ki") = Some (b64_of_Z 1024) /\
+  val_less (cmp_num_r ex_pf ex_pow) (bs "1") (bs "1.0") = true /\
+  val_less (cmp_num_r ex_pf ex_pow) (bs "1.0") (bs "1") = false /\
+  val_less (cmp_num_r ex_pf ex_pow) (bs "1.0") (bs "2") = true /\
+  val_less (cmp_num_r ex_pf ex_pow) (bs "1k") (bs "2") = false /\
+  val_less (cmp_num_r ex_pf ex_pow) (bs "2") (bs "NaN") = true /\
+  val_less (cmp_num_r ex_pf ex_pow) (bs "NaN") (bs "foo") = true /\
+  val_less (cmp_num_r ex_pf ex_pow) (bs "bar") (bs "foo") = true /\
+  parse_num_r ex_pf ex_pow (bs "x1Ki") = Some (b64_of_Z 1024) /\
+  parse_num_r ex_pf ex_pow (bs "-1k") = Some (b64_of_Z (-1000)) /\
+  parse_num_r ex_pf ex_pow (bs "-2Ki") = Some (b64_of_Z (-2048)) /\
+  parse_num_r ex_pf ex_pow (bs "x-1k") = Some (b64_of_Z 1000) /\
+  map (fun '(a, b) => val_less (cmp_num_r ex_pf ex_pow) a b)
+      [(bs "-2k", bs "-1k"); (bs "-1k", bs "-1"); (bs "-1", bs "2"); (bs "2", bs "1k"); (bs "1k", bs "-2k")]
+    = [true; true; true; true; false] /\
+  num_match_r (bs "-12.5MiB") = Some (bs "-12.5", bs "Mi") /\
   num_match (bs "abc12.5MiB") = Some (bs "12.5", bs "Mi") /\
   cmp_fixed [bs "a"; bs "b"; bs "a"] (bs "b") (bs "a") = (-1)%Z /\
-  num_denote ex_pf (bs "x1Yi") = Some (b64_of_Z (2 ^ 80)) /\
-  num_before ex_pf (bs "1Zi") (bs "2") = false /\
-  (let vs := [b64_of_Z 1; b64_of_Z 2; b64_of_Z 1000; b64_of_Z 1024; S754_nan; S754_zero true; S754_zero false] in
+  listed_before [bs "a"; bs "b"; bs "a"] (bs "b") (bs "a") = false /\
+  listed_before [bs "c"; bs "c"; bs "b"; bs "a"] (bs "c") (bs "a") = true /\
+  num_denote_r ex_pf (bs "x1Yi") = Some (b64_of_Z (2 ^ 80)) /\
+  num_before_r ex_pf (bs "1Zi") (bs "2") = false /\
+  (let vs := [b64_of_Z 1; b64_of_Z 2; b64_of_Z 1000; b64_of_Z (-1000); b64_of_Z 1024; S754_nan;
+              S754_zero true; S754_zero false] in
    forallb (fun x => negb (b64_lt x x)) vs
    && forallb (fun x => forallb (fun y => forallb (fun z =>
         negb (b64_lt x y && b64_lt y z) || b64_lt x z) vs) vs) vs = true).
+Proof. vm_compute. repeat split; reflexivity. Qed.
+
+(** ** what the code does without the repairs (Model/Sort.v, Model/Projection.v:
+    the shared model of the code as it was) *)
+
+(** the unanchored regexp drops the sign of a suffixed number: -1k sorted as
+    +1000, after 2 and level with 1k (then string order) *)
+Example C09_num_sign_refuted :
+  parse_num ex_pf ex_pow (bs "-1k") = Some (b64_of_Z 1000) /\
+  val_less (cmp_num ex_pf ex_pow) (bs "2") (bs "-1k") = true /\
+  val_less (cmp_num ex_pf ex_pow) (bs "-1k") (bs "-1") = false.
+Proof. vm_compute. repeat split; reflexivity. Qed.
+
+(** the order of two existing Keys flips when an unrelated Key is interned:
+    projection .config; k0 = {goos:a}, k1 = {goos:a, pkg:p}: the sub-field pkg is
+    created for k1 with an empty order map, "" reads rank 0 like p and string
+    order puts k0 first; after {goos:b} (no pkg) is interned, "" is registered at
+    rank 1 and k1 comes first. With the repaired map k0 stays first. *)
+Definition ex_cfg (kvs : list (bytes * bytes)) : result :=
+  mkR (bs "X") (map (fun '(k, v) => mkCfg k v true) kvs) [bs "ns/op"].
+Definition ex_ops1 : list op :=
+  [OpParse false [mkPS (bs ".config") (bs "first") []];
+   OpProject 0 (ex_cfg [(bs "goos", bs "a")]);
+   OpProject 0 (ex_cfg [(bs "goos", bs "a"); (bs "pkg", bs "p")])].
+Definition ex_ops2 : list op := ex_ops1 ++ [OpProject 0 (ex_cfg [(bs "goos", bs "b")])].
+Definition ex_less (f : projection -> nat -> nat -> bool) (ops : list op) : list bool :=
+  match w_projs (fst (run_ops new_world ops)) with
+  | p :: _ => [f p 0 1; f p 1 0]
+  | [] => []
+  end.
+
+Example C09_first_missing_refuted :
+  ex_less (key_less ex_pf ex_pow) ex_ops1 = [true; false] /\
+  ex_less (key_less ex_pf ex_pow) ex_ops2 = [false; true] /\
+  ex_less (key_less_r ex_pf ex_pow) ex_ops1 = [true; false] /\
+  ex_less (key_less_r ex_pf ex_pow) ex_ops2 = [true; false].
 Proof. vm_compute. repeat split; reflexivity. Qed.
